@@ -19,7 +19,7 @@ RULE = ("level 1: a stream of 1..4 V3 packets (payload sizes 0..40 exhaustive pa
         "in chunks; after each chunk the receive queue is drained and must contain exactly the packets whose last byte lies in "
         "that chunk, in order, byte-identical. All cut sets of size <= 3 exhaustively for short streams, random cut sets, "
         "byte-by-byte, single chunk; in a quarter of the cases another protocol object of the same process was left with an unfinished packet or junk beforehand. level 2: LAN.send on an authenticated connection; send must return at the virtual time of "
-        "the chunk carrying the last byte of the first packet and two sends together return the device's frame sequence. "
+        "the chunk carrying the last byte of the first packet (also when the reply straddles a 2 s read timeout and a retransmission happens in between) and two sends together return the device's frame sequence. "
         "Non-trivial: a cut strictly inside a packet header, or >=2 packets in one chunk, or garbage present, or payload contains "
         "the marker. Distinct by (stream, cuts).")
 ASSUMPTIONS = ["garbage prefixes are marker-free (the statement's domain); a prefix may end in 0x83 only if the next byte is not 0x70"]
@@ -141,9 +141,9 @@ def check_level2(case: dict):
         lan = LAN("10.0.0.9", 6444, 5)
         await lan.authenticate(token, key)
         try:
-            out["first"] = [bytes(x) for x in await lan.send(b"\xaa" + bytes(12), retries=1)]
+            out["first"] = [bytes(x) for x in await lan.send(b"\xaa" + bytes(12), retries=3)]
             out["t_first"] = loop.time()
-            await loop_sleep(loop, case["gap"] * (len(case["cuts"]) + 2) + 0.01)
+            await loop_sleep(loop, case["gap"] * (len(case["cuts"]) + 2) + 2.5)
             out["second"] = [bytes(x) for x in await lan.send(b"\xaa" + bytes(12), retries=1)]
         except Exception as e:
             out["exc"] = e
@@ -160,13 +160,16 @@ def check_level2(case: dict):
     info = out["info"]
     first_end = info["ends"][0]
     t_want = next(t for (b, t) in info["chunk_times"] if b >= first_end)
+    if t_want - info["chunk_times"][0][1] + case["delay"] >= 6.0:
+        return None          # the reply takes longer than the whole retry budget: timing out is correct (C08)
     if abs(out["t_first"] - t_want) > 1e-6:
         return ("l2/latency", f"send returned at t={out['t_first']:.4f}, last byte of first packet arrived at t={t_want:.4f} "
                 f"(chunks {info['chunk_times']}, ends {info['ends']})")
     got = out["first"] + out["second"]
     if got[-1:] != [MARK]:
         return ("l2/second", f"second send returned {[g.hex() for g in out['second']]} without its own reply")
-    got = got[:-1]
+    while got[-1:] == [MARK]:      # answers to retransmissions (when the reply straddled the read timeout) and to the second send
+        got = got[:-1]
     if got != frames:
         return ("l2/frames", f"two sends returned {[g.hex() for g in got]} != device sequence {case['frames']}")
     if not out["first"] or out["first"][0] != frames[0]:
@@ -280,8 +283,8 @@ def run(ctx) -> None:
         "level": st.just(2),
         "frames": st.lists(hexb(gens.frames_bytes(60)), min_size=1, max_size=4),
         "cuts": st.lists(st.integers(1, 700), max_size=8, unique=True).map(sorted),
-        "delay": st.sampled_from([0.01, 0.05, 0.5, 1.5]),
-        "gap": st.sampled_from([0.0, 0.001, 0.01, 0.05]),
+        "delay": st.sampled_from([0.01, 0.05, 0.5, 1.5, 1.9, 1.99]),
+        "gap": st.sampled_from([0.0, 0.001, 0.01, 0.05, 0.2]),
     })
 
     def run_l2(case):
